@@ -74,6 +74,7 @@ pub open spec fn stuff(s: Seq<u8>) -> Seq<u8>
 pub open spec fn stuff_t(s: Seq<u8>) -> Seq<u8> { stuff(s) + seq![0u8, 0u8] }
 
 pub open spec fn flip(i: i64) -> u64 { (i as u64) ^ 0x8000_0000_0000_0000u64 }
+pub open spec fn canon0(bits: u64) -> u64 { if bits == (1u64 << 63) { 0u64 } else { bits } }
 pub open spec fn fsort(bits: u64) -> u64 {
     if (bits & (1u64 << 63)) != 0 { !bits } else { bits ^ (1u64 << 63) }
 }
@@ -84,7 +85,7 @@ pub open spec fn okey(v: PropertyValue) -> Seq<u8> {
         PropertyValue::Null => seq![0x00u8],
         PropertyValue::Bool(b) => seq![0x01u8, if b { 1u8 } else { 0u8 }],
         PropertyValue::Int(i) => seq![0x02u8] + be64(flip(i)),
-        PropertyValue::Float(f) => seq![0x03u8] + be64(fsort(f64_bits(f))),
+        PropertyValue::Float(f) => seq![0x03u8] + be64(fsort(canon0(f64_bits(f)))),
         PropertyValue::String(s) => seq![0x04u8] + stuff_t(str_bytes(s@)),
         PropertyValue::DateTime(i) => seq![0x05u8] + be64(flip(i)),
         PropertyValue::Blob(b) => seq![0x06u8] + stuff_t(b@),
